@@ -23,15 +23,19 @@ Oracle (written from the property statement, brute force):
 
 Self-test (mutants applied to a scratch copy, VERIF_REPO=/tmp/af-mut-c10, quick tier):
   M1 _factorize: ``range(1, math.ceil(n**0.5) + 1)`` -> ``range(1, math.ceil(n**0.5))``
-       -> CAUGHT (factorize + perfect phases; e.g. n=2 loses {1,2})
-  M2 get_possible_factor_sizes: ``new_n = math.ceil(outer_size / cur_n_tiles)`` ->
-       ``new_n = n``  -> CAUGHT (imperfect: smallest shape for a count missing)
-  M3 get_possible_factor_sizes: ``if n > outer_size or n in factors`` -> ``if n in factors``
-       and loop bound ``while n <= outer_size + inner_size`` -> CAUGHT (exceeds outer)
-  M4 _count_factorizations: ``ceil(n / s)`` -> ``n // s``  -> CAUGHT (count phase)
-  M5 _count_factorizations: ``len(imperfect_per_loop) <= 1`` -> ``< 1``  -> CAUGHT
-  M6 get_possible_factor_sizes: drop ``int(outer_size), int(inner_size)`` cast
-       -> CAUGHT (numpy-args phase: uint8 overflow / wrong set)
+       -> CAUGHT (707 violations in the factorize, perfect and numpy-args phases)
+  M2 get_possible_factor_sizes: ``new_n = math.ceil(outer_size / cur_n_tiles)`` -> ``new_n = n``
+       -> CAUGHT (131015 imperfect violations)
+  M3 get_possible_factor_sizes (perfect branch): ``_factorize(ceil(outer/inner)) * inner`` ->
+       ``_factorize(outer_size)``  -> CAUGHT (5702 violations, perfect/extra-nondivisor)
+  M3x ``if n > outer_size or n in factors`` -> ``if n in factors`` (also together with the
+       loop bound ``while n < outer_size + inner_size``) -> NOT CAUGHT, and rightly so: the
+       mutant is equivalent (new_n = ceil(outer/ceil(outer/n)) clamps every over-long n to
+       outer; all 147756 outputs are unchanged)
+  M4 _count_factorizations: ``ceil(n / s)`` -> ``n // s``  -> CAUGHT (992 count violations)
+  M5 _count_factorizations: ``len(imperfect_per_loop) <= 1`` -> ``< 1``  -> CAUGHT (1890)
+  M6 get_possible_factor_sizes: drop the ``int(outer_size), int(inner_size)`` cast
+       -> CAUGHT (520 violations, numpy-args phase: uint8 overflow / division by zero)
 """
 
 from __future__ import annotations
@@ -368,7 +372,6 @@ def count_tree(n_max, max_len=4):
 def run(ctx):
     q = ctx.quick
     _impl()  # import once in the parent
-    # documented example (ffm.py: rank shape 7 -> 1, 2, 3, 4, 7) as a harness sanity anchor
     N = 512 if q else 4096
     NF = 4096 if q else 16384
     NC = 64 if q else 360
